@@ -24,6 +24,7 @@
 #include "utap/builder.h"
 #include "kinds_gen.h"
 #include "libparser.h"   // UTAP::tracker (the process-global position counter)
+#include "trace_gen.h"   // TraceBuilder (generated from builder.h)
 
 #include <cstdio>
 #include <cstring>
@@ -565,6 +566,14 @@ static void run_case(const std::string& id, bool newxta, std::vector<Cmd>& cmds)
                     int r = parse_XML_fd(fd, doc.get(), newxta);
                     printf("ret %d\n", r);
                 }
+            } else if (c.op == "TRACE") {
+                // callbacks with the heights of the three builder stacks before and after (C01 / C16 effect-table tie)
+                UTAP::TraceBuilder b(*doc);
+                int r = 0;
+                if (c.arg == "xml") r = parse_XML_buffer(c.data.c_str(), &b, newxta);
+                else if (c.arg == "xta") r = parse_XTA(c.data.c_str(), &b, newxta) ? 1 : 0;
+                else r = parse_XTA(c.data.c_str(), &b, newxta, (xta_part_t)atoi(c.arg.c_str()), "");
+                printf("ret %d\n", r);
             } else if (c.op == "PART") {
                 DocumentBuilder b(*doc);
                 int r = parse_XTA(c.data.c_str(), &b, newxta, (xta_part_t)atoi(c.arg.c_str()), "");
@@ -749,7 +758,7 @@ int main(int argc, char** argv)
             std::istringstream ls(line);
             Cmd c;
             ls >> c.op;
-            if (c.op == "MODEL" || c.op == "PART" || c.op == "PRETTY") { size_t n = 0; ls >> c.arg >> n; c.data = read_bytes(n); }
+            if (c.op == "MODEL" || c.op == "PART" || c.op == "PRETTY" || c.op == "TRACE") { size_t n = 0; ls >> c.arg >> n; c.data = read_bytes(n); }
             else if (c.op == "EXPR" || c.op == "TEXPR" || c.op == "RT" || c.op == "LAWS" || c.op == "PRETTYQ" || c.op == "PAIR" || c.op == "QLAWS") { size_t n = 0; ls >> n; c.data = read_bytes(n); }
             else if (c.op == "QUERY") { size_t n = 0; std::string a; ls >> a; if (isdigit((unsigned char)a[0])) { n = atol(a.c_str()); } else { c.arg = a; ls >> n; } c.data = read_bytes(n); }
             else ls >> c.arg;
